@@ -593,13 +593,15 @@ func CheckDuplicateProofs(proofs Proofs) bool {
 }
 
 func CheckDuplicateBlindedMessages(bms BlindedMessages) bool {
-	bmMap := make(map[BlindedMessage]bool)
+	// blinded messages are duplicates if they have the same B_,
+	// even if the amount or witness are different
+	bmMap := make(map[string]bool)
 
 	for _, bm := range bms {
-		if bmMap[bm] {
+		if bmMap[bm.B_] {
 			return true
 		} else {
-			bmMap[bm] = true
+			bmMap[bm.B_] = true
 		}
 	}
 
